@@ -9,8 +9,15 @@ package ice
 // site-local, IPv4-compatible and unspecified addresses) x scripts with Restart / Close / Failed at
 // every step and every reply timing (before cancel, after cancel, never).
 //
+// Host rewrite rules (one rule: replace / append, catch-all or pinned to a local address, optionally scoped to an
+// interface, 1..3 external addresses of mixed families incl. link-local, site-local, IPv4-compatible, ::1, ::,
+// 0.0.0.0 and addresses that are also interface addresses) are combined with everything else.
+//
 // Restrictions that keep the observation deterministic (they are restrictions of the HARNESS, the
-// theorems do not have them): a port range with fewer than 64 free ports and duplicate interface
+// theorems do not have them): with a host rule that can publish ONE address from sockets on two different
+// local addresses (catch-all rule; external address that is also an interface address) a port range is either
+// absent or a single port (the scan of listenUDPInPortRange starts at a random port: whether two such
+// sockets get the same port, which makes the second candidate a duplicate, is not determined otherwise); a port range with fewer than 64 free ports and duplicate interface
 // addresses are only combined with candidate type host alone (several gatherers racing for the same
 // port have a scheduler-dependent winner); the srflx mux has one listen address.
 
@@ -29,6 +36,7 @@ type gGenCfg struct {
 	rr, sr     string
 	busy       string
 	hold       bool
+	hr         string // host rewrite rule <rep|app>:<pinned local|->:<iface|->:<ext+ext+...>
 	ifaces     string
 }
 
@@ -45,8 +53,8 @@ func (c gGenCfg) String() string {
 		}
 		return s
 	}
-	return fmt.Sprintf("ct=%s,nt=%s,pmin=%d,pmax=%d,rif=%s,rip=%s,lo=%s,md=%s,um=%s,tm=%s,sm=%s,su=%d,tu=%d,tf=%d,rr=%s,sr=%s,busy=%s,hold=%s",
-		c.ct, d(c.nt), c.pmin, c.pmax, d(c.rif), d(c.rip), b(c.lo), b(c.md), d(c.um), d(c.tm), d(c.sm), c.su, c.tu, c.tf, d(c.rr), d(c.sr), d(c.busy), b(c.hold))
+	return fmt.Sprintf("ct=%s,nt=%s,pmin=%d,pmax=%d,rif=%s,rip=%s,lo=%s,md=%s,um=%s,tm=%s,sm=%s,su=%d,tu=%d,tf=%d,rr=%s,sr=%s,busy=%s,hold=%s,hr=%s",
+		c.ct, d(c.nt), c.pmin, c.pmax, d(c.rif), d(c.rip), b(c.lo), b(c.md), d(c.um), d(c.tm), d(c.sm), c.su, c.tu, c.tf, d(c.rr), d(c.sr), d(c.busy), b(c.hold), d(c.hr))
 }
 
 var gNetSubsets = func() []string {
@@ -293,10 +301,100 @@ func gRandCfg(r *vRand) gGenCfg {
 	} else if hasS && r.chance(1, 4) {
 		c.sr = gPinnedRule(r)
 	}
+	if strings.Contains(c.ct, "h") && r.chance(1, 4) {
+		c.hr = gHostRule(r, addrs, c.um)
+		if c.md && !r.chance(1, 5) { // else: constructor refuses (host rule with mDNS gather mode)
+			c.md = false
+		}
+		if gHostRuleMerges(c.hr, addrs) && c.pmin != c.pmax {
+			if hostOnly && r.chance(1, 2) {
+				c.pmin, c.pmax, c.busy = 5000, 5000, ""
+			} else {
+				c.pmin, c.pmax, c.busy = 0, 0, ""
+			}
+		}
+	} else if !strings.Contains(c.ct, "h") && r.chance(1, 40) {
+		c.hr = "rep:-:-:x4.70" // constructor refuses: host rule without the host candidate type
+	}
 	if r.chance(1, 40) {
 		c.pmin, c.pmax, c.busy = 6000, 5000, "" // constructor refuses: PortMax < PortMin
 	}
 	return c
+}
+
+// gHostExtPool: external addresses of host rules.  Indices 70..73 hit the four sub-ranges of each class; l6.1 /
+// u6.0 / u4.0 are the only literals of their classes.
+var gHostExtPool = []string{"x4.70", "x4.71", "x6.70", "x6.71", "x4.72", "x6.72", "k6.70", "k6.71", "s6.70", "s6.71", "s6.72", "s6.73",
+	"c6.70", "c6.71", "c6.72", "c6.73", "l6.1", "u6.0", "u4.0", "k4.70", "l4.70", "g4.70", "g6.70"}
+
+// gHostRule: one host rewrite rule.  Pinned rules take an interface address (sometimes a mux listen address or
+// an address nobody has) as Local; the interface scope is one of the interface names (or one nobody has).
+func gHostRule(r *vRand, addrs []string, um string) string {
+	mode := "rep"
+	if r.chance(2, 5) {
+		mode = "app"
+	}
+	pin := "-"
+	if r.chance(2, 5) {
+		var cand []string
+		for _, a := range addrs {
+			// a zoned (link-local) Local is not a valid rule; the unspecified address is not a local address
+			if !strings.HasPrefix(a, "k6.") && !strings.HasPrefix(a, "u6.") {
+				cand = append(cand, a)
+			}
+		}
+		if um != "" {
+			for _, a := range strings.Split(um, "+") {
+				if !strings.HasPrefix(a, "k6.") {
+					cand = append(cand, a)
+				}
+			}
+		}
+		if len(cand) > 0 && !r.chance(1, 8) {
+			pin = cand[r.intn(len(cand))]
+		} else {
+			pin = "g4.9"
+		}
+	}
+	ifc := "-"
+	if r.chance(1, 4) {
+		ifc = fmt.Sprint(r.intn(4))
+	}
+	n := 1 + r.intn(3)
+	var exts []string
+	for len(exts) < n {
+		e := gHostExtPool[r.intn(len(gHostExtPool))]
+		if r.chance(1, 10) && len(addrs) > 0 { // an external address that is also an interface address
+			e = addrs[r.intn(len(addrs))]
+			if strings.HasPrefix(e, "u6.") {
+				continue
+			}
+		}
+		if r.chance(1, 2) { // mostly publishable ones
+			e = gHostExtPool[r.intn(6)]
+		}
+		exts = append(exts, e) // duplicates allowed: the rule then lists an address twice
+	}
+	return mode + ":" + pin + ":" + ifc + ":" + strings.Join(exts, "+")
+}
+
+// gHostRuleMerges: can the rule publish one address from sockets on two different local addresses?
+func gHostRuleMerges(hr string, addrs []string) bool {
+	f := strings.Split(hr, ":")
+	if len(f) != 4 {
+		return false
+	}
+	if f[1] == "-" {
+		return true
+	}
+	for _, e := range strings.Split(f[3], "+") {
+		for _, a := range addrs {
+			if a == e {
+				return true
+			}
+		}
+	}
+	return false
 }
 
 // gPinnedRule: a srflx rewrite rule pinned to the local wildcard address with 1..3 external addresses:
@@ -513,6 +611,46 @@ func gGen(o *vOut, r *vRand, thorough bool, args []string, emit func(op string) 
 			emit("gather gather")
 			emit("gather end")
 		}
+	}
+	// 1e. host rewrite rules: replace / append x catch-all / pinned / interface-scoped x external addresses of every
+	// class (publishable, location-tracked, site-local, IPv4-compatible, ::1, ::, mixed families, twice the same,
+	// an interface address) x own sockets / TCP mux / UDP mux x network types, with Restart and Close in between
+	hrTbl := "0:u:g4.1+g6.1+k6.1/1:u:g4.2+g6.2/2:ul:l4.1"
+	for _, exts := range []string{"x4.70", "x6.70", "x4.70+x6.70", "x4.70+x4.71+x6.70", "x4.70+x4.70", "k6.70", "k6.70+x6.70", "x4.70+k6.71+x6.70",
+		"s6.70", "s6.71+x6.70", "x6.70+s6.72", "x4.70+s6.73+x6.70", "c6.70", "c6.71+x6.70", "x6.70+c6.72+x4.70", "c6.73+s6.70", "l6.1", "u6.0+x6.70",
+		"x6.70+l6.1", "u4.0", "k4.70+l4.70", "g4.2", "g6.2+x4.70", "g4.1+x4.70"} {
+		for _, shape := range []string{"rep:-:-", "app:-:-", "rep:g4.1:-", "app:g6.1:-", "rep:-:1", "app:g4.2:1", "rep:g4.2:0", "rep:l4.1:-", "rep:g4.9:-"} {
+			for k, nt := range []string{"", "u4+u6", "u4+t4", "u6+t6", "u4+t6"} {
+				c := gGenCfg{ct: "h", nt: nt, hr: shape + ":" + exts, lo: k%2 == 0, ifaces: hrTbl}
+				switch k {
+				case 0:
+					c.tm = "any"
+				case 1:
+					c.um = "g4.1+g6.1+g4.2+k6.1"
+				case 2:
+					c.tm = "g4.1"
+					if !gHostRuleMerges(c.hr, gAddrsOf(hrTbl)) {
+						c.pmin, c.pmax = 5000, 5001
+					} else {
+						c.pmin, c.pmax = 5000, 5000
+					}
+				case 3:
+					c.tm = "any"
+					c.um = "g6.1+s6.1+g6.2"
+				}
+				emit("gather new " + c.String() + " " + c.ifaces)
+				emit("gather gather")
+				emit("gather restart")
+				emit("gather gather2")
+				emit("gather close")
+				emit("gather end")
+			}
+		}
+	}
+	// constructor refusals: host rule in mDNS gather mode / without the host candidate type
+	for _, c := range []gGenCfg{{ct: "h", md: true, hr: "rep:-:-:x4.70", ifaces: gIfaceTables[0]}, {ct: "s", su: 1, hr: "app:-:-:x4.70", ifaces: gIfaceTables[0]},
+		{ct: "sr", su: 1, md: true, hr: "rep:g4.1:-:x4.70", ifaces: gIfaceTables[0]}} {
+		emit("gather new " + c.String() + " " + c.ifaces)
 	}
 	// 2. port ranges: single port, exhausted, two ports with one busy, duplicates of one address
 	for _, pr := range [][3]string{{"5000", "5000", ""}, {"5000", "5000", "g4.1:5000"}, {"5000", "5001", "g4.1:5000"},
